@@ -541,6 +541,30 @@ impl World {
         }
     }
 
+    /// Fault::OutputClosed: point file descriptors 1 and 2 of THIS process at a pipe nobody reads
+    pub fn output_closed_fault(&mut self, nth: u32) {
+        let hit = self.sc.faults.iter().any(|f| matches!(f, Fault::OutputClosed { nth: n } if *n == nth));
+        if !hit {
+            return;
+        }
+        extern "C" {
+            fn dup2(oldfd: i32, newfd: i32) -> i32;
+        }
+        if let Ok((r, w)) = std::io::pipe() {
+            use std::os::fd::AsRawFd;
+            drop(r);
+            unsafe {
+                dup2(w.as_raw_fd(), 1);
+                dup2(w.as_raw_fd(), 2);
+            }
+            drop(w);
+            self.log(LogEv::Fault {
+                kind: "output_closed".into(),
+                pid: None,
+            });
+        }
+    }
+
     pub fn spawn_fault(&self, nth: u32) -> Option<i32> {
         self.sc.faults.iter().find_map(|f| match f {
             Fault::Spawn { nth: n, errno } if *n == nth => Some(*errno),
